@@ -111,7 +111,7 @@ def run(res, tier, build_ok):
             continue
         cls = cmds.get_class(c["module"], c["cls"])
         kw = c01.finalize_kwargs(c, c01.make_cases(c, s, rng, 1)[-1], rng)
-        pool.append({"c": c, "cls": cls, "op": op, "kw": kw, "name": c["cls"]})
+        pool.append({"c": c, "cls": cls, "op": op, "kw": kw, "name": c["cls"], "set": sn, "opname": s["opname"], "module": c["module"]})
     # solo results, each obtained right after constructing only that class
     for p in pool:
         inst = p["cls"](p["op"], **p["kw"])
@@ -162,6 +162,50 @@ def run(res, tier, build_ok):
                           "%s of %s gives %s after the history, %s on its own" % (bad[0], bad[1], bad[2], bad[3]), {"history": acts, "got": bad[2], "solo": bad[3]})
         else:
             reqs.append(("isorun " + ",".join(acts), "ok " + ",".join(obs)))
+    # ---- histories in a fresh interpreter each (first use of a class after other classes / the base-class entry points)
+    import base64
+    import pickle
+    import subprocess
+    child = str(common.VERIF / "tools" / "lib" / "c09_child.py")
+    jobs = []
+    for it in range(12 * scale):
+        a, b = rng.sample(pool, 2)
+        classes = {}
+        for tag, p in (("A", a), ("B", b)):
+            classes[tag] = {"module": p["module"], "cls": p["name"], "set": p["set"], "opname": p["opname"], "kw": p["kw"],
+                            "cdb": p["cdb"], "fields": p["fields"]}
+        mid = rng.choice([["base_unmarshall"], ["base_marshall"], ["unmarshall"], ["marshall"], ["base_unmarshall", "base_marshall"], []])
+        # the static calls of a class follow a construction of that class (before the first construction
+        # marshall_cdb has no CDB length to work with and raises TypeError — original and repaired code alike)
+        steps = [("ctor", "A")] + [(m, "A") for m in mid] + rng.choice([[("ctor", "B"), ("unmarshall", "B"), ("marshall", "B")],
+                                                                        [("ctor", "B"), ("marshall", "B"), ("unmarshall", "B")]]) + \
+            [("unmarshall", "A"), ("marshall", "A")]
+        jobs.append(({"classes": classes, "steps": steps}, a, b))
+    procs = [(subprocess.Popen([common.PYTHON, child], stdin=subprocess.PIPE, stdout=subprocess.PIPE, stderr=subprocess.PIPE,
+                               env=dict(__import__("os").environ, VERIF_REPO=str(common.REPO))), job, a, b) for job, a, b in jobs]
+    for pr, job, a, b in procs:
+        o, e = pr.communicate(base64.b64encode(pickle.dumps(job)), timeout=120)
+        if pr.returncode != 0:
+            raise common.Infra("C09 child failed: " + e.decode()[-800:])
+        obs = pickle.loads(base64.b64decode(o))
+        who = {"A": a, "B": b}
+        hist = ["%s(%s)" % (act, who[w]["name"]) for act, w in job["steps"]]
+        res.case(("fresh", tuple(hist)), None)
+        res.count("fresh-interpreter histories")
+        for ob in obs:
+            p = who[ob[1]]
+            bad = None
+            if ob[0] == "ctor" and ob[2:] != (p["cdb"], p["dataout"], p["datain_len"]):
+                bad = ("constructor", str(ob[2].hex() if isinstance(ob[2], bytes) else ob[2]), p["cdb"].hex())
+            elif ob[0] == "unmarshall" and ob[2] != p["fields"]:
+                bad = ("unmarshall_cdb", str(ob[2])[:160], str(p["fields"])[:160])
+            elif ob[0] == "marshall" and ob[2] != p["re"]:
+                bad = ("marshall_cdb", str(ob[2].hex() if isinstance(ob[2], bytes) else ob[2]), p["re"].hex())
+            if bad:
+                res.violation("fresh history %s of %s" % (bad[0], p["name"]),
+                              "in a fresh interpreter, after %s: %s of %s gives %s, %s on its own" % (" ; ".join(hist), bad[0], p["name"], bad[1], bad[2]),
+                              {"history": hist, "got": bad[1], "solo": bad[2]})
+                break
     # ---- two threads under a deterministic line-level scheduler
     pairs = [(a, b) for a in pool for b in pool if a["L"] != b["L"]]
     rng.shuffle(pairs)
